@@ -43,8 +43,11 @@ following are Lean theorems for all inputs as well (second half of this file):
   `cookie_subsecond_lost`, `cookie_expire_year_fails_at`;
 * `args_program_roundtrip` (any program of `Add/Set/Del/ParseBytes/Reset`), `request_cookie_roundtrip` + `request_cookie_wf_tight`;
 * `uri_program_roundtrip` (any program of `Parse`, setters, user-info setters, `QueryArgs()` mutations, `Update`, `Reset`),
-  `update_never_panics`, `uri_roundtrip_userinfo_partial` / `uri_userinfo_dropped`, and the new known finding
-  `uri_stale_query_fails_at`.
+  `update_never_panics`, `uri_roundtrip_userinfo_partial` / `uri_userinfo_dropped`.  `uri_program_roundtrip` demands the
+  query conjunct in EVERY well-formed state: the former known finding `C17-stale-query` (`FullURI()` wrote arguments that
+  `SetQueryString` / `Update("?…")` had replaced, or the query string whose last argument had been deleted) is repaired in
+  /repo 97b0e80 (`RequestURI()` chooses by `parsedQueryArgs`), the model follows (`URI.requestURIp`), and the former witness
+  programs are the regression theorems `uri_stale_query_repaired`.
 
 TODO-OPEN (not Lean theorems): that `stdParse` is what the real `url.ParseQuery`/`url.QueryUnescape` compute, and that
 `Model/HttpDate.lean` is what Go's `time.AppendFormat` / `time.Parse` compute on the three layouts hertz uses, rests on the
@@ -542,16 +545,16 @@ open Hertz.Uri in
 If the final state is well-formed (`wfState`: scheme syntax, host free of `/ ? # @` and control bytes - it may be empty -, no
 control byte in the fragment (F15), and - when no argument list is written - a raw query string free of `#` and control
 bytes), then `Parse(nil, FullURI())` yields the same scheme, host, path and fragment and NO user-info; the arguments
-`QueryArgs()` reports (both-empty excepted) unless the state is a stale-query state (`uri_stale_query_fails_at`); and
-formatting the re-parsed URI gives the same text. -/
+`QueryArgs()` reports (both-empty excepted) - in every state, no exception: also after `QueryArgs()` use followed by
+`SetQueryString` / `Update("?…")`, and after deleting every argument (`uri_stale_query_repaired`); and formatting the
+re-parsed URI gives the same text. -/
 theorem uri_program_roundtrip (ops : List UriOp) (st : UState) (hrun : runUriOps ops = some st) (hwf : wfState st = true) :
     (UState.ofParse [] st.fullURI).u.schemeOrHTTP = st.u.schemeOrHTTP ∧
     (UState.ofParse [] st.fullURI).u.host = st.u.host ∧
     (UState.ofParse [] st.fullURI).u.pathOrSlash = st.u.pathOrSlash ∧
     (UState.ofParse [] st.fullURI).u.hash = st.u.hash ∧
     (UState.ofParse [] st.fullURI).u.username = [] ∧ (UState.ofParse [] st.fullURI).u.password = [] ∧
-    (st.staleQuery = false →
-      (UState.ofParse [] st.fullURI).queryView = st.queryView.filter (fun kv => !kv.bothEmpty)) ∧
+    (UState.ofParse [] st.fullURI).queryView = st.queryView.filter (fun kv => !kv.bothEmpty) ∧
     (UState.ofParse [] st.fullURI).fullURI = st.fullURI :=
   program_roundtrip ops st hrun hwf
 
@@ -573,23 +576,44 @@ theorem uri_reachable_invariant (ops : List UriOp) (st : UState) (hrun : runUriO
 
 open Hertz.Uri in
 set_option maxRecDepth 100000 in
-/-- GENUINE DEFECT (class `uri-stale-query`): the query `FullURI()` writes is not the query the object reports.
+/-- Regression theorems for the repaired defect (former known finding `C17-stale-query`, class `uri-stale-query`; /repo
+97b0e80): the former witness programs now round-trip.
 (1) `Parse("http://h/?a=1")`, `QueryArgs().Add("b","2")`, `SetQueryString("c=3")` (or `Update("?c=3")`): `QueryString()` is
-`c=3`, `QueryArgs()` reports `c=3`, but `FullURI()` is `http://h/?a=1&b=2` - `RequestURI` writes the argument list whenever it
-is non-empty, without looking at `parsedQueryArgs`.  (2) `Parse("http://h/?a=1")`, `QueryArgs().Del("a")`: `QueryArgs()`
-reports nothing, `FullURI()` still has `?a=1` - with an empty list `RequestURI` falls back to the old query string.
-Both states are well-formed, so the hypothesis `staleQuery = false` of `uri_program_roundtrip` cannot be dropped. -/
-theorem uri_stale_query_fails_at :
+`c=3`, `QueryArgs()` reports `c=3`, and `FullURI()` is `http://h/?c=3` (it used to be `http://h/?a=1&b=2`: `RequestURI` wrote the
+argument list whenever it was non-empty, without looking at `parsedQueryArgs`).  (2) `Parse("http://h/?a=1")`,
+`QueryArgs().Del("a")`: `QueryArgs()` reports nothing and `FullURI()` is `http://h/` (it used to keep `?a=1`: with an empty list
+`RequestURI` fell back to the old query string).  All three final states are `staleQuery` states (flag and list disagree with
+the other field) and well-formed: the query conjunct of `uri_program_roundtrip` is not vacuous on them. -/
+theorem uri_stale_query_repaired :
     (∃ st, runUriOps [.parse [] [104, 116, 116, 112, 58, 47, 47, 104, 47, 63, 97, 61, 49], .args (.add [98] [50]), .setQueryString [99, 61, 51]] = some st ∧
       wfState st = true ∧ st.staleQuery = true ∧ st.u.query = [99, 61, 51] ∧ st.queryView = [⟨[99], [51], false⟩] ∧
-      st.fullURI = [104, 116, 116, 112, 58, 47, 47, 104, 47, 63, 97, 61, 49, 38, 98, 61, 50] ∧
-      (UState.ofParse [] st.fullURI).queryView = [⟨[97], [49], false⟩, ⟨[98], [50], false⟩]) ∧
+      st.fullURI = [104, 116, 116, 112, 58, 47, 47, 104, 47, 63, 99, 61, 51] ∧
+      (UState.ofParse [] st.fullURI).queryView = st.queryView) ∧
     (∃ st, runUriOps [.parse [] [104, 116, 116, 112, 58, 47, 47, 104, 47, 63, 97, 61, 49], .args (.add [98] [50]), .update [63, 99, 61, 51]] = some st ∧
-      st.queryView = [⟨[99], [51], false⟩] ∧ st.fullURI = [104, 116, 116, 112, 58, 47, 47, 104, 47, 63, 97, 61, 49, 38, 98, 61, 50]) ∧
+      wfState st = true ∧ st.staleQuery = true ∧ st.queryView = [⟨[99], [51], false⟩] ∧
+      st.fullURI = [104, 116, 116, 112, 58, 47, 47, 104, 47, 63, 99, 61, 51] ∧
+      (UState.ofParse [] st.fullURI).queryView = st.queryView) ∧
     (∃ st, runUriOps [.parse [] [104, 116, 116, 112, 58, 47, 47, 104, 47, 63, 97, 61, 49], .args (.del [97])] = some st ∧
-      wfState st = true ∧ st.staleQuery = true ∧ st.queryView = [] ∧ st.fullURI = [104, 116, 116, 112, 58, 47, 47, 104, 47, 63, 97, 61, 49] ∧
-      (UState.ofParse [] st.fullURI).queryView = [⟨[97], [49], false⟩]) := by
+      wfState st = true ∧ st.staleQuery = true ∧ st.u.query = [97, 61, 49] ∧ st.queryView = [] ∧
+      st.fullURI = [104, 116, 116, 112, 58, 47, 47, 104, 47] ∧
+      (UState.ofParse [] st.fullURI).queryView = st.queryView) := by
   refine ⟨⟨_, rfl, ?_⟩, ⟨_, rfl, ?_⟩, ⟨_, rfl, ?_⟩⟩ <;> decide +kernel
+
+open Hertz.Uri in
+/-- the same from the general theorem: in ANY state reached by a program whose last step is `SetQueryString(q)` with `q` free
+of `#` and control bytes - whatever was done through `QueryArgs()` before - the re-parsed URI reports the arguments of `q`. -/
+theorem uri_setQueryString_wins (ops : List UriOp) (q : Bytes) (st : UState)
+    (hrun : runUriOps (ops ++ [.setQueryString q]) = some st) (hrec : wfRecord st.u = true)
+    (hq : hasCTL q = false ∧ q.contains 35 = false) :
+    (UState.ofParse [] st.fullURI).queryView = parseArgs q :=
+  setQueryString_wins ops q st hrun hrec hq
+
+open Hertz.Uri in
+/-- non-vacuity: `Parse("http://h/?a=1")`, `QueryArgs().Add("b","2")`, then `SetQueryString("c=3")` meets the hypotheses. -/
+example : ∃ st, runUriOps ([.parse [] [104, 116, 116, 112, 58, 47, 47, 104, 47, 63, 97, 61, 49], .args (.add [98] [50])] ++ [.setQueryString [99, 61, 51]]) = some st ∧
+    wfRecord st.u = true ∧ hasCTL [99, 61, 51] = false ∧ ([99, 61, 51] : Bytes).contains 35 = false := by
+  refine ⟨_, rfl, ?_⟩
+  decide +kernel
 
 /-! ### user-info -/
 
@@ -627,8 +651,8 @@ theorem uri_userinfo_dropped :
 open Hertz.Uri in
 set_option maxRecDepth 100000 in
 /-- non-vacuity for `uri_program_roundtrip`: `Parse("https://User:Pw@Host.example/a/b?x=1#f")`, `Update("../c?y")`,
-`QueryArgs().Add("k","v w")`, `SetUsername("u")`, `Update("#g")` ends in a well-formed, non-stale state whose text is
-`https://host.example/c?y&k=v+w#g`. -/
+`QueryArgs().Add("k","v w")`, `SetUsername("u")`, `Update("#g")` ends in a well-formed state (flag set, arguments written) whose
+text is `https://host.example/c?y&k=v+w#g`. -/
 example :
     ∃ st, runUriOps [.parse [] [104, 116, 116, 112, 115, 58, 47, 47, 85, 115, 101, 114, 58, 80, 119, 64, 72, 111, 115, 116, 46, 101, 120, 97, 109, 112, 108, 101, 47, 97, 47, 98, 63, 120, 61, 49, 35, 102], .update [46, 46, 47, 99, 63, 121], .args (.add [107] [118, 32, 119]),
         .setUsername [117], .update [35, 103]] = some st ∧
